@@ -63,7 +63,16 @@ def nondegenerate(tri):
     return all(X.volume([P[i] for i in s]) != 0 for s in tri.simplices)
 
 
-def initial_points(rng, d, family):
+def shift(p, off):
+    return tuple(float(x) + o for x, o in zip(p, off))
+
+
+def initial_points(rng, d, family, off=None):
+    pts = initial_points0(rng, d, family)
+    return [shift(p, off) for p in pts] if off else pts
+
+
+def initial_points0(rng, d, family):
     if family == "simplex":        # one lattice simplex: Delaunay in every metric
         while True:
             pts = [tuple(float(rng.randint(0, 3)) for _ in range(d)) for _ in range(d + 1)]
@@ -88,10 +97,19 @@ def initial_points(rng, d, family):
 CIRCLE5 = [(3, 4), (4, 3), (5, 0), (0, 5), (-3, 4), (-4, 3), (-5, 0), (0, -5), (3, -4), (4, -3), (-3, -4), (-4, -3), (0, 0)]
 
 
-def choose_point(rng, tri, d, family):
+def choose_point(rng, tri, d, family, off=None):
+    kind, p = choose_point0(rng, tri, d, family)
+    if off and kind in ("lattice", "far", "cocirc", "dyadic", "dyadic_far"):
+        p = shift(p, off)
+    return kind, p
+
+
+def choose_point0(rng, tri, d, family):
     kind = rng.choice(["lattice", "lattice", "centroid", "midpoint", "far", "dup", "facepoint", "cocirc"]
                       if family != "dyadic" else ["dyadic", "dyadic", "dyadic", "dyadic_far", "centroid", "dup"])
     S = sorted(tri.simplices)
+    if not S and kind in ("centroid", "midpoint", "facepoint"):
+        kind = "lattice" if family != "dyadic" else "dyadic"      # a broken (empty) triangulation: the oracle reports it
     if kind == "lattice":
         p = tuple(float(rng.randint(-1, 4)) for _ in range(d))
     elif kind == "centroid":
@@ -143,13 +161,30 @@ def choose_hint(rng, tri, p):
 
 
 def transform_of(rng, d, family, quick):
+    """identity, diag with axis ratio <= 100, and -- a metric need not normalise to the unit box -- the same
+    multiplied by a small length scale (circumradii far below 1 in the metric)"""
     if family in ("lattice",) or rng.random() < 0.35:
-        return None
-    r = rng.choice([2.0, 4.0, 10.0, 100.0, 0.5, 0.01, 3.0])
-    diag = [1.0] * d
-    for k in rng.sample(range(d), rng.randint(1, d - 1)):
-        diag[k] = r
+        diag = None
+    else:
+        r = rng.choice([2.0, 4.0, 10.0, 100.0, 0.5, 0.01, 3.0])
+        diag = [1.0] * d
+        for k in rng.sample(range(d), rng.randint(1, d - 1)):
+            diag[k] = r
+    if rng.random() < 0.3:
+        sc = rng.choice([1e-6, 1e-7, 3e-8])
+        diag = [sc * x for x in (diag or [1.0] * d)]
     return diag
+
+
+def offset_of(rng, d):
+    """translation of the whole point set away from the origin (the property is translation invariant);
+    4-D stays below 100 where the general circumsphere formula of the code is still accurate"""
+    if rng.random() < 0.55:
+        return [0.0] * d
+    mag = rng.choice({2: [10.0, 1000.0, 1e4, 3e4], 3: [10.0, 300.0, 1000.0, 1e4], 4: [10.0, 50.0, 100.0]}[d])
+    if rng.random() < 0.5:
+        return [mag] * d
+    return [mag if rng.random() < 0.7 else float(rng.choice([0, 200, 7])) for _ in range(d)]
 
 
 # ---------------------------------------------------------------------------
@@ -237,7 +272,8 @@ class Oracle:
         for s, res in a.flat:
             pts = [P[i] if i < len(P) else pt for i in s]
             ex, m = X.x_flat(pts)
-            if res and ex is not None:
+            if res and ex is not None and (ex or m < FRAGILE["flat"]):
+                # the documented sliver tolerance: a candidate whose relative volume is below 1e-8
                 self.sliver += X.volume(pts)
             self._pred("flat", res, ex, m, f"_simplex_is_almost_flat({s})", step)
         for face, center, v1, v2, same in a.orient:
@@ -289,13 +325,16 @@ class Oracle:
                 self.err(clause, msg, step)
 
     def final(self, tri, step, general):
-        if general:
+        # empty circumspheres in the metric: for points in general position this is THE Delaunay property;
+        # for degenerate inputs the same test (no vertex strictly inside, by more than 1e-6) is the weak
+        # Delaunay property every triangulation produced by Bowyer-Watson must still have
+        if general or len(tri.vertices) <= 12:
             for clause, msg in X.delaunay_errors(tri, self.TF):
                 self.err(clause, msg, step)
 
 
 # ---------------------------------------------------------------------------
-def drive(d, init_pts, T, family, rng=None, nins=0, inserts=None, volume_every_step=True):
+def drive(d, init_pts, T, family, rng=None, nins=0, inserts=None, volume_every_step=True, off=None):
     """Run the real Triangulation.  Either `inserts` (concrete replay) or rng/nins (generation)."""
     from adaptive.learner.triangulation import Triangulation
     tri = Triangulation([tuple(p) for p in init_pts])
@@ -314,7 +353,7 @@ def drive(d, init_pts, T, family, rng=None, nins=0, inserts=None, volume_every_s
             kind, p, hk, hint = item["kind"], tuple(item["p"]), item["hint_kind"], item["hint"]
             hint = None if hint is None else tuple(hint)
         else:
-            kind, p = choose_point(rng, tri, d, family)
+            kind, p = choose_point(rng, tri, d, family, off)
             hk, hint = choose_hint(rng, tri, p)
         concrete.append({"kind": kind, "p": list(p), "hint_kind": hk, "hint": None if hint is None else list(hint)})
         before = X.snapshot(tri)
@@ -428,7 +467,7 @@ def run(chk: Check) -> int:
     chk.prove(["theories/Props/C03.vo", "theories/Run/TriRun.vo"], THEOREMS)
     ncases = 320 if chk.quick else 3000
     cases, metas = [], []
-    hist = {"kind": {}, "path": {}, "dim": {}, "family": {}, "hint": {}, "transform": {}}
+    hist = {"kind": {}, "path": {}, "dim": {}, "family": {}, "hint": {}, "transform": {}, "metric_scale": {}, "offset": {}}
     tot = {"steps": 0, "pred_checked": 0, "fragile_decisions": 0, "fragile_cases": 0, "general_position_cases": 0,
            "degenerate_initial_skipped": 0, "would_fail_but_fragile": 0, "hull_extension_deleting_old_simplices": 0}
     fragile_kinds, min_margin = {}, {}
@@ -444,6 +483,10 @@ def run(chk: Check) -> int:
         bump("dim", run_["d"])
         bump("family", run_["family"])
         bump("transform", "identity" if run_["T"] is None else "diag ratio %g" % (max(run_["T"]) / min(run_["T"])))
+        bump("metric_scale", "1" if run_["T"] is None else "%g" % min(min(run_["T"]), 1.0))
+        far = max(abs(x) for x in run_["init"][0])
+        bump("offset", "<10" if far < 10 else "10..99" if far < 100 else "100..999" if far < 1000 else
+             "1e3..1e4" if far < 1e4 else ">=1e4")
         for st in run_["steps"]:
             bump("kind", st["kind"])
             bump("path", st["path"])
@@ -492,12 +535,13 @@ def run(chk: Check) -> int:
         if family == "box" and d == 4:
             family = "simplex"
         T = transform_of(rng, d, family, chk.quick)
-        init = initial_points(rng, d, family)
+        off = offset_of(rng, d)
+        init = initial_points(rng, d, family, off)
         nmax = {2: 9, 3: 7, 4: 5}[d] if chk.quick else {2: 14, 3: 10, 4: 7}[d]
         if family == "box":
             nmax = max(2, nmax - 2 ** d // 2)
         try:
-            r = drive(d, init, T, family, rng=rng, nins=rng.randint(2, nmax), volume_every_step=(d < 4 or not chk.quick))
+            r = drive(d, init, T, family, rng=rng, nins=rng.randint(2, nmax), volume_every_step=(d < 4 or not chk.quick), off=off)
         except ValueError:
             r = None    # scipy refused the initial points
         if r is None:
@@ -530,7 +574,9 @@ def run(chk: Check) -> int:
         rule="real Triangulation driven in dims 2-4 from one lattice simplex / unit simplex / box corners / several lattice "
              "points (Euclidean only) / dyadic general-position points, 2..14 insertions of lattice points, centroids, edge "
              "midpoints, dyadic facet points, co-circular lattice points, far exterior points and duplicates, with no hint, a "
-             "containing simplex, a wrong simplex or the empty hint, transform identity or diag with ratio <= 100; "
+             "containing simplex, a wrong simplex or the empty hint, transform identity or diag with ratio <= 100, optionally "
+             "times a small length scale (1e-6 .. 3e-8: circumradii far below 1 in the metric), whole point set optionally "
+             "translated by 10 .. 3e4 (4-D: <= 100) from the origin; "
              "non-trivial = at least one hull extension, one insertion deleting >= 2 simplices and one rejection; distinct by "
              "(points, hints, transform)",
         assumptions=["PARTIAL: the Coq theorems cover the combinatorial bookkeeping for all predicate outcomes; tiling, "
